@@ -174,6 +174,37 @@ fn check_search(c: &SearchCase) -> CheckResult {
     Ok(out)
 }
 
+pub fn decode_search(d: &mut crate::dec::Dec) -> SearchCase {
+    use crate::dec::*;
+    let supply = match d.pick(3) {
+        0 => SupplySpec::Dedicated,
+        1 => dec_supply(d, 12),
+        _ => {
+            let incr: Vec<u8> = d.vec(0, 11, |d| d.byte() & 1);
+            let mut cycle: Vec<u8> = d.vec(1, 7, |d| d.byte() & 1);
+            if cycle.iter().all(|x| *x == 0) {
+                cycle[0] = 1;
+            }
+            SupplySpec::UserSteps { incr, cycle }
+        }
+    };
+    let limit = match d.pick(4) {
+        0 => LimitMode::Above(d.range(1, 199)),
+        1 => LimitMode::AtFixedPoint,
+        2 => LimitMode::Below(d.range(1, 3)),
+        _ => LimitMode::Absolute(d.range(1, 119)),
+    };
+    SearchCase {
+        supply,
+        offset: d.range(0, 39),
+        base_extra: d.range(0, 11),
+        zero_demand: d.byte() % 10 == 0,
+        steps: d.vec(0, 6, |d| (d.range(1, 59), d.range(1, 5))),
+        limit,
+        use_search: d.flag(),
+    }
+}
+
 // --- max_response_time -------------------------------------------------------
 
 #[derive(Clone, Debug, Serialize, Deserialize)]
@@ -226,18 +257,100 @@ fn check_max(c: &Vec<Res>) -> CheckResult {
     Ok(out)
 }
 
+// --- slow convergence --------------------------------------------------------------
+
+/// w(r) = min(r + 1, n): the iteration creeps towards its fixed point one tick at a time
+#[derive(Clone, Debug, Serialize, Deserialize)]
+pub struct SlowCase {
+    pub supply: SupplySpec,
+    pub n: u64,
+    pub limit: LimitMode,
+    pub use_search: bool,
+}
+
+fn slow_strategy(tier: Tier) -> BoxedStrategy<SlowCase> {
+    let nmax = tier.pick(40_000u64, 120_000u64);
+    (
+        prop_oneof![2 => Just(SupplySpec::Dedicated), 2 => reservation_strategy(6), 1 => user_supply_strategy()],
+        prop_oneof![1 => 1u64..200, 3 => 1000u64..nmax],
+        limit_mode(),
+        any::<bool>(),
+    )
+        .prop_map(|(supply, n, limit, use_search)| SlowCase { supply, n, limit, use_search })
+        .boxed()
+}
+
+fn check_slow(c: &SlowCase) -> CheckResult {
+    let mut out = Outcome::default();
+    let sup = c.supply.build();
+    // sbf(r) <= r < r + 1, so the least r with sbf(r) >= min(r + 1, n) is the least r with sbf(r) >= n
+    let least = match &c.supply {
+        SupplySpec::Dedicated => c.n,
+        _ => {
+            // linear scan over the reference SBF in period-sized strides
+            let mut t = c.n;
+            loop {
+                if c.supply.ref_sbf(t) >= c.n {
+                    break;
+                }
+                t += c.n - c.supply.ref_sbf(t);
+            }
+            // walk back to the least such t (ref_sbf is monotone and 1-Lipschitz)
+            while t > 0 && c.supply.ref_sbf(t - 1) >= c.n {
+                t -= 1;
+            }
+            t
+        }
+    };
+    let limit = match &c.limit {
+        LimitMode::Absolute(l) => *l * 500,
+        LimitMode::Above(k) => least + k,
+        LimitMode::AtFixedPoint => least,
+        LimitMode::Below(k) => least.saturating_sub(*k),
+    }
+    .max(1);
+    let expected: Result<u64, (u64, u64)> = if least <= limit { Ok(least) } else { Err((0, limit)) };
+    let n = c.n;
+    let wl = move |r: response_time_analysis::time::Duration| s((du(r) + 1).min(n));
+    let got = guard_with_budget(400_000_000, || {
+        if c.use_search {
+            fixed_point::search(&sup, d(limit), wl)
+        } else {
+            fixed_point::search_with_offset(&sup, Offset::from(0), d(limit), &wl)
+        }
+    })
+    .map_err(|e| format!("search panicked: {} (n {}, limit {})", e, c.n, limit))?;
+    let got_n: Result<u64, (u64, u64)> = match got {
+        Ok(r) => Ok(du(r)),
+        Err(SearchFailure::DivergenceLimitExceeded { offset, limit }) => Err((du(offset.since_time_zero()), du(limit))),
+        Err(e) => return Err(format!("unexpected error {:?}", e)),
+    };
+    if got_n != expected {
+        return Err(format!(
+            "search over w(r) = min(r+1, {}) returned {:?} but the least solution is {} (limit {}) => expected {:?}",
+            c.n, got_n, least, limit, expected
+        ));
+    }
+    out.inner = 1;
+    out.nontrivial = c.n >= 1000;
+    out.label_if(expected.is_err(), "err");
+    out.label_if(c.n > 10_000, "more-than-10000-iterations");
+    Ok(out)
+}
+
 pub fn def() -> PropertyDef {
     PropertyDef {
         id: "C08",
-        rule: "generated: supply (dedicated / periodic / constrained / user-defined 0-1 increment vector with periodic tail that only implements provided_service), monotone step workload w(r) = base + sum of steps, offset inside the busy window (base > sbf(offset-1)), limit mode (above / equal to / just below the least solution / absolute); oracle: linear scan for the least r>=0 with ref_sbf(off+r) >= w(max(r,1)), ref_sbf computed from the reservation parameters alone; Ok iff r <= limit, else the error carrying exactly (offset, limit); larger limits reproduce the Ok. Second sub-check: generated sequences of SearchResults for max_response_time against first-error / maximum / zero. Non-trivial: the search needs >= 2 iterations (a workload step inside (1, r]) or diverges; for sequences: length >= 2. Distinct by case JSON.".into(),
+        rule: "generated: supply (dedicated / periodic / constrained / user-defined 0-1 increment vector with periodic tail that only implements provided_service), monotone step workload w(r) = base + sum of steps, offset inside the busy window (base > sbf(offset-1)), limit mode (above / equal to / just below the least solution / absolute); oracle: linear scan for the least r>=0 with ref_sbf(off+r) >= w(max(r,1)), ref_sbf computed from the reservation parameters alone; Ok iff r <= limit, else the error carrying exactly (offset, limit); larger limits reproduce the Ok. Third sub-check: workloads w(r) = min(r+1, n) with n up to 40000 (quick) / 120000 (thorough), on which the iteration needs ~n rounds. Second sub-check: generated sequences of SearchResults for max_response_time against first-error / maximum / zero. Non-trivial: the search needs >= 2 iterations (a workload step inside (1, r]) or diverges; for sequences: length >= 2. Distinct by case JSON.".into(),
         assumptions: vec![
             "limits >= 1 (with limit 0 the loop body never runs and every search reports divergence)".into(),
             "offsets lie inside the busy window: service_time(w(1)) >= offset (the invariant every caller in the crate maintains)".into(),
             "supplies are 1-Lipschitz (the debug cross-check in search() looks for equality)".into(),
         ],
         subchecks: vec![
-            subcheck("search", (20_000, 400_000), search_strategy, check_search),
+            subcheck("search", (20_000, 400_000), search_strategy, check_search).with_decoder(decode_search, check_search),
             subcheck("max_response_time", (5000, 100_000), max_strategy, check_max),
+            subcheck("slow-convergence", (12, 200), slow_strategy, check_slow),
         ],
         extra: None,
     }
